@@ -465,13 +465,15 @@ def is_coplanar(*args: PointTensor | LineTensor, tol: float = EQ_TOL_ABS) -> npt
 
     """
     n = args[0].dim + 1
-    result = np.isclose(det(np.stack([a.array for a in args[:n]], axis=-2)), 0, atol=tol)
+    # single objects broadcast against collections
+    arrays = np.broadcast_arrays(*[a.array for a in args])
+    result = np.isclose(det(np.stack(arrays[:n], axis=-2)), 0, atol=tol)
     if not np.any(result) or len(args) == n:
         return result
     # the objects lie in a common hyperplane (resp. pass through a common point) if and only if every n of them do;
     # testing the remaining objects against the span of the first n - 1 fails when those are linearly dependent
     for ind in combinations(range(len(args)), n):
-        result &= np.isclose(det(np.stack([args[i].array for i in ind], axis=-2)), 0, atol=tol)
+        result &= np.isclose(det(np.stack([arrays[i] for i in ind], axis=-2)), 0, atol=tol)
         if not np.any(result):
             break
     return result
